@@ -77,6 +77,7 @@ def run(chk):
     fill_children_rules(chk)
     node_walk_rules(chk)
     triangle_edge_rule(chk)
+    edge_crossing_rule(chk)
 
 
 # ---------------------------------------------------------------------------
@@ -652,6 +653,9 @@ class MatchFn:
     def cover_rule(self):
         chk, cfg, view = self.chk, self.cfg, self.view
         per_point_values_rule(chk, "R12.2", "match", self, self.outer_loop(), {("param", p) for p in (self.p_ra, self.p_dec, self.p_rad)})
+        cover_fresh_rule(chk, "R12.2", "match", self, self.outer_loop(),
+                         {"search radius": ("param", self.p_rad), "longitude": ("param", self.p_ra), "latitude": ("param", self.p_dec)})
+        candidate_loops_rule(chk, "R12.2", "match", self, self.outer_loop(), getattr(self, "fs", {}))
         sets = [(n, x) for n in cfg.nodes if isinstance(n.c, dict) for x in walk(n.c) if x.get("kind") == "CXXMemberCallExpr" and callee_name(x) == "setRaDecD"]
         ok = len(sets) == 1
         # a locator: when the cap is not defined by exactly one call in this function (moved into a helper, split) nothing is contradicted
@@ -1075,6 +1079,182 @@ def per_point_values_rule(chk, rule, fname, f, loop_ivar, inputs):
                "iteration, otherwise point i is processed with the value of point i-1%s"
                % (v, "; ".join("`%s` at %s" % (render(d.c)[:60], f.w(d).rsplit(":", 1)[-1]) for d in dnodes),
                   "" if not stale else " -- used before it: %s" % "; ".join("`%s` (line %s)" % (render(m.c)[:70], f.w(m).rsplit(":", 1)[-1]) for m in stale[:3])))
+
+
+def cover_fresh_rule(chk, rule, fname, f, loop_ivar, inputs):
+    """the triangle lists that are searched for point i are those of the circle of point i: inside the loop over the first-set points
+    every path of one iteration that reaches a consumer of the lists the intersection fills (a consumer: a statement after the
+    intersection that mentions them) runs through the intersection of the same iteration.  Where a path skips it and the lists live
+    across iterations, the cover of an earlier point is searched again: that is the cover of point i only if centre AND opening angle
+    are the same, so the condition under which the intersection runs has to depend on every per-point input of the cap (`inputs`:
+    {what: array parameter}, followed through the variables derived from them and the tests that select them).  A reuse condition
+    that leaves one of them out is a violation; one that mentions them all is not judged (its bookkeeping is not verified)."""
+    cfg, view = f.cfg, f.view
+    lp, ivar = loop_ivar
+    key = "%s::cover-computed-for-every-point" % fname
+    body = loop_body(cfg, view, lp)
+    bids = {m.id for m in body}
+    inter = [(m, x) for m in body if isinstance(m.c, dict) for x in walk(m.c)
+             if x.get("kind") == "CXXMemberCallExpr" and callee_name(x) == "intersect" and len(cfront.call_args(x)) >= 3]
+    if not inter:
+        chk.ob(rule, key, None, f.where, "no SpatialDomain::intersect call inside the loop over the points (moved into a helper?): not judged")
+        return
+    lists = sorted({render(z) for _, x in inter for z in cfront.call_args(x)[1:3]})
+    iids = {m.id for m, _ in inter}
+
+    def names_of(e):
+        return {y.get("referencedDecl", {}).get("name") for y in walk(e) if y.get("kind") == "DeclRefExpr"} - {None}
+
+    def forward(starts, avoid, stop_at_clear=False):
+        seen, todo = set(), list(starts)
+        while todo:
+            i = todo.pop()
+            if i in seen or i in avoid or i not in bids:
+                continue
+            m = cfg.node(i)
+            if stop_at_clear and isinstance(m.c, dict):
+                t = render(m.c).replace(" ", "")
+                if any(("%s.clear(" % L) in t or ("%s.cut(" % L) in t or t.startswith("(%s=" % L) for L in lists):
+                    continue        # the lists are emptied / replaced on this path: nothing of an earlier point is left in them
+            seen.add(i)
+            todo.extend(j for j in cfg.g.successors(i) if j != lp.id)
+        return seen
+    after = forward([j for i in iids for j in cfg.g.successors(i)], set())
+    consumers = {i for i in after if i not in iids and isinstance(cfg.node(i).c, dict) and names_of(cfg.node(i).c) & set(lists)}
+    if not consumers:
+        chk.ob(rule, key, None, f.w(inter[0][0]), "no statement after the intersection mentions its lists %s: not judged" % lists)
+        return
+    skipping = forward([j for j in cfg.g.successors(lp.id) if "T" in cfg.g[lp.id][j]["labels"]], iids, stop_at_clear=True)
+    stale = sorted(consumers & skipping)
+    base = ("every path of one iteration to a consumer of the triangle lists %s runs through the intersection made for that point" % lists)
+    if not stale:
+        chk.ob(rule, key, True, f.w(inter[0][0]), base)
+        return
+    persist = [L for L in lists if L not in _declared_in(cfg, body)]
+    conds = [b for m, _ in inter for b, lab in view.controlling_branches(m) if b.kind == "branch" and b.id in bids and isinstance(b.c, dict)]
+    ctext = "; ".join(sorted({render(b.c)[:120] for b in conds}))
+    first = cfg.node(stale[0])
+    if not persist or not conds:
+        chk.ob(rule, key, None, f.w(first), base + " -- `%s` is reached without it (intersection under `%s`); the lists are new in every iteration: not judged" % (render(first.c)[:60], ctext))
+        return
+    # variables derived from each per-point input of the cap, and the tests that select among their definitions
+    derived = {}
+    for what, arr in inputs.items():
+        ds = set()
+        changed = True
+        while changed:
+            changed = False
+            for m in cfg.nodes:
+                for v, rhs in node_defs(m):
+                    if v in ds or rhs is None:
+                        continue
+                    ar = array_read(rhs, getattr(f, "alias", None))
+                    direct = (ar is not None and ar[0] == arr) or ref_desc_in(rhs, getattr(f, "alias", None)) == arr
+                    if direct or (names_of(rhs) & ds):
+                        ds.add(v)
+                        changed = True
+                        for b, lab in (view.controlling_branches(m) if direct else ()):
+                            if b.kind == "branch" and isinstance(b.c, dict) and b.id not in {c.id for c in conds}:
+                                ds.update(n_ for n_ in names_of(b.c) if n_ != ivar)
+        derived[what] = ds
+    # what the reuse condition depends on (through the locals it is computed from)
+    deps = set()
+    for b in conds:
+        deps |= names_of(b.c)
+    for _ in range(3):
+        for m in body:
+            for v, rhs in node_defs(m):
+                if v in deps and rhs is not None:
+                    deps |= names_of(rhs)
+    missing = sorted(what for what, ds in derived.items() if ds and not (deps & ds))
+    unknown = sorted(what for what, ds in derived.items() if not ds)
+    if missing:
+        chk.ob(rule, key, False, f.w(inter[0][0]),
+               base + " -- `%s` (line %s) is reached without it: the intersection runs only under `%s` and the lists %s live across iterations, so the cover of an "
+               "earlier point is searched again; that condition does not depend on the %s of the point (variables that carry it: %s): a point whose %s differs from "
+               "the one the kept cover was built for is searched in the wrong set of triangles and pairs outside it are lost"
+               % (render(first.c)[:60], f.w(first).rsplit(":", 1)[-1], ctext, persist, " / ".join(missing), {w_: sorted(derived[w_])[:6] for w_ in missing}, " / ".join(missing)))
+    else:
+        chk.ob(rule, key, None, f.w(inter[0][0]), base + " -- `%s` is reached without it (intersection under `%s`, which mentions every input of the cap%s): the reuse of an "
+               "earlier cover is not judged" % (render(first.c)[:60], ctext, "" if not unknown else "; not traced: %s" % unknown))
+
+
+def candidate_loops_rule(chk, rule, fname, f, loop_ivar, fs):
+    """every candidate triangle is examined: a loop that runs over the triangle lists of the intersection - or over a container they
+    were copied into - is left only through its bound.  The candidates are the full list followed by the partial list (each in the
+    order the tree walk produced it), so nothing about the triangles still to come follows from the value of the one in hand: an exit
+    (break / goto) taken under a condition on the current candidate drops the remaining ones, and with them every point they hold.
+    Not judged: exits by return / throw, exits that do not depend on the candidate, and code that sorts the candidate container."""
+    cfg, view = f.cfg, f.view
+    lp, ivar = loop_ivar
+    key = "%s::candidate-loops-run-to-their-end" % fname
+    body = loop_body(cfg, view, lp)
+    bids = {m.id for m in body}
+    inter = [(m, x) for m in body if isinstance(m.c, dict) for x in walk(m.c)
+             if x.get("kind") == "CXXMemberCallExpr" and callee_name(x) == "intersect" and len(cfront.call_args(x)) >= 3]
+    if not inter:
+        chk.ob(rule, key, None, f.where, "no SpatialDomain::intersect call inside the loop over the points: not judged")
+        return
+    lists = sorted({render(z) for _, x in inter for z in cfront.call_args(x)[1:3]})
+    try:
+        copies = list_copies(fs or {}, f.decl, lists)
+    except (AnalysisError, KeyError, TypeError, IndexError):
+        copies = {}
+    containers = set(lists) | {c for v_ in copies.values() for c in v_}
+
+    def names_of(e):
+        return {y.get("referencedDecl", {}).get("name") for y in walk(e) if y.get("kind") == "DeclRefExpr"} - {None}
+    seen, todo = set(), [j for m, _ in inter for j in cfg.g.successors(m.id)]
+    while todo:
+        i = todo.pop()
+        if i in seen or i not in bids:
+            continue
+        seen.add(i)
+        todo.extend(j for j in cfg.g.successors(i) if j != lp.id)
+    sorts = [m for m in cfg.nodes if isinstance(m.c, dict) and any(y.get("kind") in ("CallExpr", "CXXMemberCallExpr") and (callee_name(y) or "").split("::")[-1] in ("sort", "stable_sort")
+                                                                    and names_of(y) & containers for y in walk(m.c))]
+    cloops, bad, unk = [], [], []
+    for L in [cfg.node(i) for i in sorted(seen) if cfg.node(i).kind == "loop"]:
+        lb = loop_body(cfg, view, L)
+        lids = {m.id for m in lb}
+        inner_loops = [m for m in lb if m.kind == "loop"]
+        nested_ids = {q.id for il in inner_loops for q in loop_body(cfg, view, il)}
+        own = [m for m in lb if m.id not in nested_ids]
+        if not any(isinstance(m.c, dict) and names_of(m.c) & containers for m in own + [L]):
+            continue
+        cloops.append(L)
+        for m in lb:
+            for j in cfg.g.successors(m.id):
+                if j in lids or j == L.id:
+                    continue
+                t = cfg.node(j)
+                if m.kind in ("return", "raise") or t.kind in ("return", "raise", "exit", "raise_exit"):
+                    continue
+                conds = [b for b, lab in view.controlling_branches(m) if b.kind == "branch" and b.id in lids and isinstance(b.c, dict)]
+                deps = set()
+                for b in conds:
+                    deps |= names_of(b.c)
+                for _ in range(3):
+                    for q in lb:
+                        for v, rhs in node_defs(q):
+                            if v in deps and rhs is not None:
+                                deps |= names_of(rhs)
+                ctext = "; ".join(render(b.c)[:80] for b in conds) or "(unconditional)"
+                ln = f.w(conds[-1] if conds else m).rsplit(":", 1)[-1]
+                if deps & containers and not sorts:
+                    bad.append((ln, ctext, render(L.c)[:60] if isinstance(L.c, dict) else "", conds[-1] if conds else m))
+                else:
+                    unk.append((ln, ctext, "the candidate container is sorted before" if sorts else "the condition does not depend on the candidate"))
+    if not cloops:
+        chk.ob(rule, key, None, f.where, "no loop over the triangle lists %s was found after the intersection" % sorted(containers))
+        return
+    ok = False if bad else (None if unk else True)
+    chk.ob(rule, key, ok, f.w(bad[0][3]) if bad else f.w(cloops[0]),
+           "the %d loop(s) over the candidate triangles (%s) are left only through their bound: every triangle of the full and of the partial list is examined%s%s"
+           % (len(cloops), sorted(containers),
+              "" if not bad else " -- the loop `%s` is left early under `%s` (line %s), a condition on the candidate in hand: the candidates are the full list followed by the partial "
+              "list, not one ascending sequence, so the triangles still to come - and every pair in them - are skipped" % (bad[0][2], bad[0][1], bad[0][0]),
+              "" if not unk else " -- not judged: early exit under `%s` (line %s): %s" % (unk[0][1], unk[0][0], unk[0][2])))
 
 
 def array_read_ptr(expr):
@@ -3057,3 +3237,173 @@ def triangle_edge_rule(chk, rule="R12.9"):
                % (cn, ", ".join(verts), "" if not missing else " -- never applied to edge %s; the calls made are on %s" % (", ".join(missing), sorted("-".join(p) for p in pairs if None not in p)),
                   "" if not degenerate else " (degenerate call on %s)" % degenerate[:2]))
     chk.ob(rule, "triangle-edge-helpers-found", True if seen >= 1 else None, src, "%d function(s) apply a two-vertex helper to the edges of a triangle" % seen)
+
+
+# ---------------------------------------------------------------------------
+def _discriminant_region(x, dname, consts, sdl, const_value):
+    """a comparison of the discriminant `dname` (or of its absolute value) with a constant, as (form, op, K): form 'D' / '|D|', op the
+    relation read with the discriminant on the left, K the constant (None when not evaluated); None when x is not such a comparison"""
+    def is_d(e):
+        e = _through_locals(e, {})
+        while isinstance(e, dict) and e.get("kind") in ("ParenExpr", "ImplicitCastExpr", "CStyleCastExpr", "CXXStaticCastExpr", "CXXFunctionalCastExpr") and e.get("inner"):
+            e = strip(e["inner"][-1])
+        if isinstance(e, dict) and e.get("kind") == "DeclRefExpr" and e.get("referencedDecl", {}).get("name") == dname:
+            return "D"
+        if isinstance(e, dict) and e.get("kind") in ("CallExpr", "CXXMemberCallExpr") and callee_name(e) in ("fabs", "abs", "fabsl", "std::abs", "std::fabs") \
+                and cfront.call_args(e) and is_d(cfront.call_args(e)[0]) == "D":
+            return "|D|"
+        return None
+    a, b = x["inner"]
+    fa, fb = is_d(a), is_d(b)
+    if bool(fa) == bool(fb):
+        return None
+    op = x["opcode"] if fa else {"<": ">", "<=": ">=", ">": "<", ">=": "<="}[x["opcode"]]
+    return (fa or fb, op, const_value(b if fa else a, consts, 0, sdl))
+
+
+def edge_crossing_rule(chk, rule="R12.9"):
+    """R12.9 (continued): whether the search circle crosses an edge of a triangle is decided by the two-vertex helper that is applied to
+    all three edges (eSolve): it solves a quadratic in the position along the edge.  A quadratic has real roots exactly when its
+    discriminant is >= 0, whatever the size of its coefficients - and these shrink with the triangle and the circle (the discriminant
+    like the square of their product), so no positive absolute bound separates 'no root' from 'root'.  Necessary for 'none missing':
+    the helper answers 'no crossing' on the ground of the discriminant only where the discriminant is negative: a branch that leads
+    to the negative answer alone because `D < K` / `D <= K` has K <= 0, and none does because D is ABOVE some bound.  Also the
+    quantity under the square root carries no additive constant (it vanishes when all the quantities it is computed from do).
+    The discriminant is located as the argument of the square root of the helper; constants are evaluated from the headers."""
+    from checks.C13 import _header_constants, _const_value
+    decls = cfront.load_tu("spatialconvex")
+    fs = cfront.functions(decls)
+    src = "esutil/htm/htm_src/SpatialConvex.cpp"
+    helpers = set()
+    for name, fn, verts, cn, pairs in _edge_applications(fs):
+        edges = {frozenset(p) for p in pairs if None not in p and p[0] != p[1]}
+        if {frozenset(e) for e in ((verts[0], verts[1]), (verts[1], verts[2]), (verts[2], verts[0]))} <= edges:
+            helpers.add(cn)
+    consts = _header_constants("esutil/htm/htm_src")
+    seen = 0
+    for cn in sorted(helpers):
+        hfn = next((fn for nm, fn in sorted(fs.items()) if nm.split("::")[-1] == cn and cfront.has_body(fn)), None)
+        if hfn is None:
+            continue
+        sdl = _single_def_locals(hfn)
+        where = "%s:%s" % (src, hfn.get("line", "?"))
+        roots = [x for x in walk(cfront.body_of(hfn)) if x.get("kind") in ("CallExpr", "CXXMemberCallExpr") and callee_name(x) in ("sqrt", "sqrtl", "std::sqrt")
+                 and cfront.call_args(x)]
+        if not roots:
+            continue                # not a quadratic solver: nothing to say here
+        seen += 1
+        chk.analysed_unit("SpatialConvex.cpp:SpatialConvex::" + cn)
+        key = "%s::no-crossing-only-for-negative-discriminant" % cn
+        dnames = set()
+        for r in roots:
+            e = strip(cfront.call_args(r)[0])
+            while isinstance(e, dict) and e.get("kind") in ("ParenExpr", "ImplicitCastExpr", "CStyleCastExpr") and e.get("inner"):
+                e = strip(e["inner"][-1])
+            dnames.add(e.get("referencedDecl", {}).get("name") if e.get("kind") == "DeclRefExpr" else None)
+        if len(dnames) != 1 or None in dnames:
+            chk.ob(rule, key, None, where, "the argument of the square root in `%s` is not one local variable (%s): the discriminant was not located" % (cn, sorted(map(str, dnames))))
+            continue
+        dname = dnames.pop()
+        # (1) the quantity under the root has no additive constant
+        terms = [t for v, t in stmt_terms_h(hfn) if v == dname]
+        if len(terms) == 1 and terms[0] is not None:
+            t = terms[0]
+            csyms = {s: consts[str(s)] for s in t.free_symbols if str(s) in consts}
+            try:
+                rest = sp.expand(t.subs({s: 0 for s in t.free_symbols if s not in csyms}))
+                okh = bool(rest == 0)
+            except (TypeError, ValueError, AttributeError):
+                rest, okh = None, None
+            chk.ob(rule, "%s::discriminant-has-no-absolute-offset" % cn, okh, where,
+                   "the quantity under the square root, `%s = %s`, is built from the edge / circle quantities only: it vanishes when they do%s"
+                   % (dname, str(t)[:80], "" if okh is not False else " -- it carries the additive constant %s: real roots (crossings) of small triangles / circles are shifted "
+                      "across 0 and reported as 'no crossing'" % rest))
+        # (2) exits on the ground of the discriminant
+        g = cfront.CCFG(hfn)
+        view = g.view()
+
+        def is_false_return(n):
+            if n.kind != "return" or not isinstance(n.c, dict):
+                return False
+            vals = [strip(y) for y in (n.c.get("inner") or [])] if n.c.get("kind") == "ReturnStmt" else [strip(n.c)]
+            return bool(vals) and ((vals[0].get("kind") == "CXXBoolLiteralExpr" and vals[0].get("value") is False)
+                                   or (vals[0].get("kind") == "IntegerLiteral" and str(vals[0].get("value")) == "0"))
+
+        def only_negative_answers(start):
+            seen_, todo, rets = set(), [start], []
+            while todo:
+                i = todo.pop()
+                if i in seen_:
+                    continue
+                seen_.add(i)
+                n = g.node(i)
+                if n.kind == "return":
+                    rets.append(n)
+                    continue
+                if n.kind in ("exit", "raise_exit", "raise"):
+                    return False
+                todo.extend(g.g.successors(i))
+            return bool(rets) and all(is_false_return(r) for r in rets)
+
+        def suff(e, want):
+            e = strip(e)
+            while isinstance(e, dict) and e.get("kind") in ("ParenExpr", "ImplicitCastExpr", "ExprWithCleanups") and e.get("inner"):
+                e = strip(e["inner"][-1])
+            if e.get("kind") == "UnaryOperator" and e.get("opcode") == "!":
+                return suff(e["inner"][0], not want)
+            if e.get("kind") == "BinaryOperator" and e.get("opcode") in ("&&", "||"):
+                if (e["opcode"] == "||") == want:
+                    return suff(e["inner"][0], want) + suff(e["inner"][1], want)
+                return []
+            if e.get("kind") == "BinaryOperator" and e.get("opcode") in ("<", "<=", ">", ">="):
+                return [(e, want)]
+            return []
+        bad, unk, fine = [], [], []
+        located = set()
+        for b in g.nodes:
+            if b.kind != "branch" or not isinstance(b.c, dict):
+                continue
+            cmps = [x for x in walk(b.c) if x.get("kind") == "BinaryOperator" and x.get("opcode") in ("<", "<=", ">", ">=")
+                    and _discriminant_region(x, dname, consts, sdl, _const_value) is not None]
+            if not cmps:
+                continue
+            located.update(id(x) for x in cmps)        # a test in a branch that does not lead to the negative answer alone rejects nothing
+            nested = [c for c, _ in view.controlling_branches(b) if c.kind == "branch"]
+            for j in g.g.successors(b.id):
+                for lab in g.g[b.id][j]["labels"]:
+                    if lab not in ("T", "F") or not only_negative_answers(j):
+                        continue
+                    atoms = suff(b.c, lab == "T")
+                    for x in cmps:
+                        located.add(id(x))
+                        form, op, K = _discriminant_region(x, dname, consts, sdl, _const_value)
+                        pol = [p for a_, p in atoms if a_ is x]
+                        ln = x.get("line") or next((y["line"] for y in walk(x) if y.get("line")), hfn.get("line", "?"))
+                        txt = render(x)
+                        if not pol:
+                            unk.append((ln, txt, "takes part in the condition `%s` that leads to the negative answer, together with other tests" % render(b.c)[:80]))
+                            continue
+                        if not pol[0]:
+                            op = {"<": ">=", "<=": ">", ">": "<=", ">=": "<"}[op]
+                        if op in (">", ">="):
+                            (unk if nested else bad).append((ln, txt, "'no crossing' is answered when %s %s %s: non-negative discriminants (real roots) are rejected" % (form, op, "%g" % K if K is not None else "?")))
+                        elif K is None:
+                            unk.append((ln, txt, "the bound was not evaluated"))
+                        elif K > 0:
+                            (unk if nested else bad).append((ln, txt, "'no crossing' is answered when %s %s %g: the discriminants in [0, %g) have real roots - the edge IS crossed - and the "
+                                                             "discriminant shrinks with the square of (edge length x circle size), so for deep trees / small circles every crossing falls "
+                                                             "below this absolute bound" % (form, op, K, K)))
+                        else:
+                            fine.append((ln, txt, K))
+        for x in walk(cfront.body_of(hfn)):
+            if x.get("kind") == "BinaryOperator" and x.get("opcode") in ("<", "<=", ">", ">=") and id(x) not in located \
+                    and _discriminant_region(x, dname, consts, sdl, _const_value) is not None:
+                unk.append((x.get("line") or "?", render(x), "a test on the discriminant whose effect on the answer was not followed"))
+        ok = False if bad else (None if unk else True)
+        chk.ob(rule, key, ok, "%s:%s" % (src, bad[0][0]) if bad else where,
+               "`%s` decides edge by edge whether the circle crosses the triangle's boundary by a quadratic whose discriminant is `%s` (the argument of its square root): the answer "
+               "'no crossing' is given on the ground of the discriminant only where it is negative (tests found: %s)%s%s"
+               % (cn, dname, ["%s [bound %g]" % (f_[1], f_[2]) for f_ in fine],
+                  "" if not bad else " -- `%s` (line %s): %s; the neighbouring triangle is then not put on the partial list and every pair in it is lost" % (bad[0][1], bad[0][0], bad[0][2]),
+                  "" if not unk else " -- not decided: %s" % "; ".join("`%s` (line %s): %s" % (u[1][:60], u[0], u[2]) for u in unk[:2])))
+    chk.ob(rule, "edge-crossing-solver-found", True if seen >= 1 else None, src, "%d two-vertex helper(s) applied to all three edges of a triangle solve a quadratic (square root found)" % seen)
